@@ -166,7 +166,7 @@ func c04Parser(c *Ctx, P *ssa.Function) {
 			rdnLoop = &sl
 		case strings.HasSuffix(d, ".Attributes"):
 			attrLoop = &sl
-		case strings.Contains(d, "slicelit") || strings.HasPrefix(d, "global:"):
+		case strings.Contains(d, "slicelit") || strings.HasPrefix(d, "{") || strings.HasPrefix(d, "global:"):
 			mandLoop = &sl
 		}
 	}
